@@ -42,6 +42,8 @@ pub struct ModScript {
   pub ops: Operations,
   pub protocol: String,
   pub ev_ok: bool,
+  /// the announcement of a new owner (MEMBER_JOINED owner=true) is acknowledged
+  pub handover_ok: bool,
   pub verdict: VerdictS,
   pub auth: AuthS,
   pub direct: Option<bool>,
@@ -70,6 +72,7 @@ impl ScriptedModulator {
         ops,
         protocol: "TEST/1.0".into(),
         ev_ok: true,
+        handover_ok: true,
         verdict: VerdictS::Valid,
         auth: AuthS::Failure,
         direct: Some(true),
@@ -214,7 +217,7 @@ impl narwhal_modulator::Modulator for ScriptedModulator {
           e.owner.map(|b| b.to_string()).unwrap_or_default()
         ),
       ));
-      s.ev_ok
+      s.ev_ok && (s.handover_ok || !(e.kind.to_string() == "MEMBER_JOINED" && e.owner == Some(true)))
     };
     if ok { Ok(ForwardEventResponse {}) } else { anyhow::bail!("scripted event failure") }
   }
